@@ -27,6 +27,7 @@ of the merge scenario (random masters, all splits at splittable points, ALL load
 import AutosarVerif.Lemmas.Files
 import AutosarVerif.Lemmas.Merge
 import AutosarVerif.Lemmas.MergeUnion
+import AutosarVerif.Lemmas.MergeOrder
 
 namespace AV.C09
 
@@ -89,5 +90,32 @@ theorem C09_merge_each_child_exactly_once : type_of% @AV.W.MU.merge_level_once :
 
 /-- `theorem opLoad_isUnion (nmAutosar : Nat) (w : World) (k : Nat) (name : Bytes) (strict : Bool) (buf : Bytes) (m : Model) (h : Hdr) (kids : Items) (hm : w.models[k]? = some m) (hne : m.files.isEmpty = false) (hp : (runParser S V strict buf w.nextId nmAutosar).1 = .ok (h, kids)) (rk : Nat → Nat → Nat) (hc : Compat S V rk m.rootHdr m.rootKids kids) (w' : World) (s : String) (hl : opLoad S V nmAutosar w k name strict buf = (w', .ok s)) : ∃ kr, IsUnion S V w.nextFile m.rootHdr.id (m.files.map (·.id)) m.rootKids kids kr ∧ ∃ m', w'.models[k]? = some m' ∧ ∃ base order, m'.rootKids = renumItems base order kr` -/
 theorem C09_load_into_model_is_the_union : type_of% @AV.W.MU.opLoad_isUnion := @AV.W.MU.opLoad_isUnion
+
+
+/-! ### added later in the third session (loads, cross-model moves, merge order): restated by name
+(`type_of%` keeps the statement identical to the lemma; the signature is quoted in the comment) -/
+
+/-- the specification-level union is determined up to the shape equivalence `UEquiv` (siblings permuted, identities ignored, effective file sets compared as sets)
+`theorem isUnion_det (newFile pid : Nat) (files : List Nat) (ka kb kr kr' : Items) (h1 : IsUnion S V newFile pid files ka kb kr) (h2 : IsUnion S V newFile pid files ka kb kr') : UEquiv kr kr'` -/
+theorem C09_union_is_determined : type_of% @AV.W.MU.isUnion_det := @AV.W.MU.isUnion_det
+
+/-- **order independence for two files**: two accepted merges (a then b, b then a) of fresh contents that AGREE on what they share (`Agree`: texts, attributes, types of paired elements equal; the pairing test symmetric) give `UEquiv` results
+`theorem mergeElement_order_indep (rk rk' : Nat → Nat → Nat) (fverA fverB : Nat → Option Nat) (fA fB minVerA minVerB : Nat) (filesA filesB : List Nat) (sA : SetEq filesA [fA]) (sB : SetEq filesB [fB]) (fuel fuel' : Nat) (hA hB : Hdr) (ka kb kr kr' : Items) (cA : Compat S V rk hA ka kb) (cB : Compat S V rk' hB kb ka) (ag : Agree S V ka kb) (frA : Fresh ka) (frB : Fresh kb) (h1 : mergeElement S V fverA fB minVerB fuel hA ka filesA kb = (kr, none)) (h2 : mergeElement S V fverB fA minVerA fuel' hB kb filesB ka = (kr', none)) : UEquiv kr kr'` -/
+theorem C09_two_files_order_independent : type_of% @AV.W.MU.mergeElement_order_indep := @AV.W.MU.mergeElement_order_indep
+
+/-- negation witness: files that disagree on a value of a shared element merge silently, the first loaded wins
+`theorem not_uequiv : ¬ UEquiv res12.1 res21.1` -/
+theorem C09_witness_disagreeing_values : type_of% @AV.W.MU.OrdEx1.not_uequiv := @AV.W.MU.OrdEx1.not_uequiv
+
+/-- negation witness: a named element vs. the same element without SHORT-NAME pair in one direction only
+`theorem not_uequiv : ¬ UEquiv res12.1 res21.1` -/
+theorem C09_witness_pairing_test_asymmetric : type_of% @AV.W.MU.OrdEx2.not_uequiv := @AV.W.MU.OrdEx2.not_uequiv
+
+/-- **exactly once at path level**: the identifiable paths of an accepted merge are the paths of the model plus the NEW paths of the file; paths of paired elements appear once
+`theorem merge_paths_union {vOk : Nat} (hS : NameWFv S vOk) (hU : SnOnlyFirst S) (rk : Nat → Nat → Nat) (fver : Nat → Option Nat) (nf mv fuel : Nat) (ha : Hdr) (ka : Items) (files : List Nat) (kb kr : Items) (pre : Bytes) (hc : Compat S V rk ha ka kb) (hp : PathHyp S V ka kb) (h : mergeElement S V fver nf mv fuel ha ka files kb = (kr, none)) : (∀ p, p ∈ paths S kr pre ↔ p ∈ paths S ka pre ∨ p ∈ paths S kb pre) ∧ ((paths S ka pre).Nodup → (paths S kb pre).Nodup → (∀ p ∈ paths S ka pre, p ∈ paths S kb pre → p ∈ commonPaths S V kb ka.childElems pre) → (paths S kr pre).Nodup)` -/
+theorem C09_paths_of_the_merge_are_the_union : type_of% @AV.W.MU.merge_paths_union := @AV.W.MU.merge_paths_union
+
+/-- `theorem twice : resXY.2 = none ∧ paths dupSpec resXY.1 [] = [[47, 110], [47, 110]] ∧ paths dupSpec kaX [] = [[47, 110]] ∧ paths dupSpec kbY [] = [[47, 110]] ∧ commonPaths dupSpec toyEnv kbY kaX.childElems [] = []` -/
+theorem C09_witness_same_path_different_kind : type_of% @AV.W.MU.OrdEx3.twice := @AV.W.MU.OrdEx3.twice
 
 end AV.C09
